@@ -365,17 +365,18 @@ class Bloom(Driver):
                           max_insertions=self.maxlen, histories_per_parameter_point=sum(6 ** k for k in range(0, 4)))
 
     def units(self):
+        # one unit = one (size, count): all tweaks are explored inside it, in one process
         for size in self.sizes:
             for nf in self.nfuncs:
-                for tw in self.tweaks:
-                    yield dict(size=size, nfuncs=nf, tweak=tw)
+                yield dict(size=size, nfuncs=nf)
 
     def execute(self, unit):
         items = bloom_items(self.seed)
-        for ln in range(0, self.maxlen + 1):
-            for seq in itertools.product(self.names, repeat=ln):
-                case = dict(size=unit["size"], nfuncs=unit["nfuncs"], tweak=unit["tweak"], history=[list(items[x]) for x in seq])
-                yield case, self.run(case)
+        for tw in self.tweaks:
+            for ln in range(0, self.maxlen + 1):
+                for seq in itertools.product(self.names, repeat=ln):
+                    case = dict(size=unit["size"], nfuncs=unit["nfuncs"], tweak=tw, history=[list(items[x]) for x in seq])
+                    yield case, self.run(case)
 
     def run(self, case):
         size, nf, tw = int(case["size"]), int(case["nfuncs"]), int(case["tweak"])
@@ -384,6 +385,10 @@ class Bloom(Driver):
         try:
             from pycoin.bloomfilter import BloomFilter
             from pycoin.symbols.btc import network
+            # a second filter with the same hash-function count and another tweak is created and used first: the
+            # filter under test must not be influenced by it (state shared between instances)
+            decoy = BloomFilter(size, hash_function_count=nf, tweak=(tw ^ 0x5A5A5A5A) & 0xFFFFFFFF)
+            decoy.add_item(b"decoy")
             bf = BloomFilter(size, hash_function_count=nf, tweak=tw)
             done = []
             ncalls = 0
